@@ -581,6 +581,10 @@ spifconf_shell_expand(spif_charptr_t s)
                   }
               }
               if (!builtins[k].name) {
+                  if (!*pbuff) {
+                      /* A '%' at the very end:  stay on it rather than on the terminator. */
+                      pbuff--;
+                  }
                   newbuff[j] = *pbuff;
               } else {
                   D_CONF(("Call to built-in function %s detected.\n", builtins[k].name));
